@@ -22,6 +22,20 @@ CLAIMED = {
          "Trusted: Coq kernel + vm_compute; translators tools/tr_pgns.py (fail-closed ast) and tools/tr_db.py, cross-examined "
          "by running the real dispatchers against run_disp on the translated tables; Python >>,&,== on ints = Z ops.",
          "DESIGN.md §5 C08"),
+ "C01": ("Coq proof that the template's steps, run as the generated code runs them, equal a declarative spec for every "
+         "payload + kernel-checked (vm_compute) step-by-step equality of all 417 translated decoders with the template of "
+         "their database record, regenerated on every run + correspondence of interpreter and utils models (bit-exact floats)",
+         "C01 (tools/templates/OblC01.v, compiled per run): for every fixed-layout database definition (342 of 417, 2650 "
+         "fields) and EVERY payload, the translated decode function computes exactly spec_decode (metadata from the record; "
+         "value from (p / 2^BitOffset) mod 2^BitLength under signedness, not-available rule, resolution, range, lookup table). "
+         "All 417 definitions (incl. variable-layout ones) are compared statement by statement with the template by kernel "
+         "computation; lookup dictionaries are proved equal to the database tables. Totality on in-range payloads and the "
+         "Offset attribute are decided by the witness search (database semantics evaluated exactly in Python), not by a theorem: partial.",
+         "Trusted: Coq kernel + vm_compute + native float/int63 primitives; translators tr_pgns.py/tr_db.py (cross-examined by "
+         "running the real generated decoders against run_ddef on the translated tables); hand models Fields.v/PyNum.v of "
+         "utils.py and CPython int/float arithmetic, tied by ~12k kernel-decided cases per run. Known finding: database "
+         "attribute Offset ignored by the code (23 fields).",
+         "DESIGN.md §5 C01"),
 }
 PENDING_REASON = "not claimed yet: model/theorems for this property are still being built (see DESIGN.md §9 build order)"
 
